@@ -130,7 +130,7 @@ Definition Shdr (c : efcore) : layout := gen_Elf_Shdr (c_le c) (c_is64 c).
 Definition Phdr (c : efcore) : layout := gen_Elf_Phdr (c_le c) (c_is64 c).
 Definition Chdr (c : efcore) : layout := gen_Elf_Chdr (c_le c) (c_is64 c).
 Definition chdr_binds (c : efcore) : binds := pick (c_is64 c) gen_binds_Elf_Chdr_32 gen_binds_Elf_Chdr_64.
-Definition stream_len (c : efcore) : Z := zlen (c_img c).
+Definition stream_len (c : efcore) : Z := zlenT (c_img c).     (* = Bytes.zlen, tail-recursive *)
 
 (* ---- _section_offset / _segment_offset: the bodies are TRANSLATED from the live source
         (Gen/PyFuns.v gen_section_offset / gen_segment_offset, regenerated on every run);
